@@ -159,6 +159,18 @@ def run(chk):
                 else:
                     prob = check_nets(c, ["x"], ["y"], {"y": lambda v, i=i, qp=qp: v["x"] and v[f"{i}.{qp[0]}"], "d": lambda v, i=i, qp=qp: v["x"] != v[f"{i}.{qp[0]}"]})
         chk.ob("C15.R.dff", f"dff::{case}", prob is None, file=FILE, func="bench_to_circuit", line=fr_.node.lineno, fact=prob or {}, expect="a flip-flop blackbox between the D net and the Q net")
+    text = "INPUT(x)\nOUTPUT(q)\nOUTPUT(y)\nq = DFF(d)\nd = XOR(x, q)\ny = AND(x, q)\n"
+    r = P.call(FILE, "bench_to_circuit", text, "s")
+    n += 1
+    ok = r[0] == "return" and r[1].outputs() == {"q", "y"} and r[1].inputs() == {"x"}
+    chk.ob("C15.R.dff", "dff::Q net declared OUTPUT", ok, file=FILE, func="bench_to_circuit", line=fr_.node.lineno,
+           fact={"outputs": sorted(r[1].outputs()) if r[0] == "return" else str(r)[:100]}, expect="outputs == declared OUTPUT lines, including a flip-flop's Q net")
+    text = "OUTPUT(o)\nINPUT(a)\nOUTPUT(n)\no = NOT(n)\nn = BUFF(a)\n"
+    r = P.call(FILE, "bench_to_circuit", text, "s")
+    n += 1
+    ok = r[0] == "return" and r[1].outputs() == {"o", "n"} and r[1].inputs() == {"a"}
+    chk.ob("C15.R.reader", "outputs declared before their definition", ok, file=FILE, func="bench_to_circuit", line=fr_.node.lineno,
+           fact={"outputs": sorted(r[1].outputs()) if r[0] == "return" else str(r)[:100]}, expect="outputs == declared OUTPUT lines")
     # ---- W / M: writer round trip --------------------------------------------
     for name, c in writer_circuits():
         snap = c._snapshot()
